@@ -33,6 +33,15 @@ CHECKS = {
         "agreement are judged on every case, plus the complete small grid.",
         note="Trusts VTerm and the padding model in vf/models/padding.py (CENTER odd cell: either side accepted).",
     ),
+    "C19": dict(
+        level="exploration",
+        technique="runtime monitor: hand-written recursive-descent reference recogniser/interpreter vs. format() on every string up to a length bound, plus draw() equivalence on the pty",
+        text="ALL strings of length <= 4 (quick) / <= 5 (thorough) over the 21-symbol specifier alphabet are judged for each render style "
+        "(accept/reject, documented error class, no side effect on image or class state); accepted specifiers are rendered and compared with "
+        "the draw() pipeline called with the parameters the reference interpreter derives, a sample through a real draw() on the pty; random "
+        "long sentences / near-sentences reach the int32 z-index limits and long thresholds.",
+        note="Trusts the reference grammar in vf/models/fmtspec.py (written from docs/source/guide/formatting.rst and the class docs); leniencies listed in the evidence assumptions.",
+    ),
 }
 
 NOT_APPLICABLE = {
